@@ -2,38 +2,17 @@
 (footer, dynamic disk header, BAT, sector bitmap padded to a sector boundary). Big-endian."""
 from __future__ import annotations
 
-import z3
-
-from symx import files
-from symx.core import S, bvval as V
+from oracles.mem import ite
 
 SECTOR = 512
+U64 = (1 << 64) - 1
 
 
-def zx(t):
-    return z3.ZeroExt(S.W - t.size(), t) if t.size() < S.W else t
-
-
-def footer_pos(fsize, fname="img"):
+def footer_pos(fsize, mem):
     """Address of the footer: the last 512 bytes; pre-2004 images have a 511-byte footer, recognised by the
     reserved feature bit (always 1) not being where a 512-byte footer would have it."""
-    W32 = files.word_uf(fname, 4, "be")[0]
-    feat = W32(fsize - V(512) + V(8))
-    return z3.If(z3.Extract(1, 1, feat) == z3.BitVecVal(1, 1), fsize - V(512), fsize - V(511))
-
-
-def fields(fsize, fname="img"):
-    W64 = files.word_uf(fname, 8, "be")[0]
-    W32 = files.word_uf(fname, 4, "be")[0]
-    fp = footer_pos(fsize, fname)
-    data_offset = W64(fp + V(16))
-    current_size = W64(fp + V(48))
-    dh = zx(data_offset)
-    table_offset = W64(dh + V(16))
-    max_entries = W32(dh + V(28))
-    block_size = W32(dh + V(32))
-    return dict(footer=fp, data_offset=data_offset, current_size=current_size, table_offset=table_offset,
-                max_entries=max_entries, block_size=block_size)
+    feat = mem.word(fsize - 512 + 8, 4, "be")
+    return ite((feat & 2) != 0, fsize - 512, fsize - 511)
 
 
 def bitmap_sectors(block_size):
@@ -42,15 +21,16 @@ def bitmap_sectors(block_size):
     return (bitmap_bytes + SECTOR - 1) // SECTOR
 
 
-def guest_byte(g, fsize, block_size, fname="img"):
-    B = files.byte_uf(fname)[0]
-    W32 = files.word_uf(fname, 4, "be")[0]
-    f = fields(fsize, fname)
-    fixed = f["data_offset"] == z3.BitVecVal((1 << 64) - 1, 64)
+def guest_byte(g, fsize, block_size, mem, dynamic):
+    """dynamic: bool (the harness enumerates fixed/dynamic; the footer's data_offset decides in the file)"""
+    if not dynamic:
+        return mem.byte(g)
+    fp = footer_pos(fsize, mem)
+    data_offset = mem.word(fp + 16, 8, "be")
+    table_offset = mem.word(data_offset + 16, 8, "be")
     spb = block_size // SECTOR
-    s = z3.LShR(g, V(9))
-    blk = z3.UDiv(s, V(spb))
-    e = W32(zx(f["table_offset"]) + V(4) * blk)
-    data = B((zx(e) + V(bitmap_sectors(block_size)) + z3.URem(s, V(spb))) * V(SECTOR) + z3.URem(g, V(SECTOR)))
-    dyn = z3.If(e == z3.BitVecVal(0xFFFFFFFF, 32), z3.BitVecVal(0, 8), data)
-    return z3.If(fixed, B(g), dyn)
+    s = g // SECTOR
+    blk = s // spb
+    e = mem.word(table_offset + 4 * blk, 4, "be")
+    data = mem.byte((e + bitmap_sectors(block_size) + s % spb) * SECTOR + g % SECTOR)
+    return ite(e == 0xFFFFFFFF, 0, data)
